@@ -107,6 +107,10 @@ def run(ctx, model):
     sep = "\uE000"
     if sep in touched:
         raise AnalysisError("separator character is mentioned by __escape")
+    universe = [c for c in universe if c != sep]
+    if escape_of(model, sep) != sep:
+        ctx.violation("R-ESC", esc_f.relpath, esc_f.short, "escape table", "a private-use character is rewritten by __escape",
+                      esc_f.node.lineno, inp="U+E000")
     blob_in = sep.join(universe)
     n_bad = 0
     for order in (0, 1, 2, 3):
